@@ -60,7 +60,7 @@ def make_plans(rnd, n):
             if rnd.random() < 0.25:
                 p["cancel2_ms"] = p["cancel_ms"] + rnd.choice([0, 1, 15])
         if rnd.random() < 0.25:
-            p["slow_ms"] = rnd.choice([20, 60, 150, 1250])
+            p["slow_ms"] = rnd.choice([20, 60, 150, 1250, 2500])
         plans.append(p)
     return plans
 
@@ -78,9 +78,12 @@ def stress_run(binary, case):
         if case.get("rotate"):
             dr.ok("rotate")
         dr.ok("hook_start")
-        r = dr.ok("qstress", plans=case["plans"], max_running=case["maxrun"], timeout_secs=1, timeout=240)
-        alive = dr.ok("qtables")
-        r["alive"] = alive is not None
+        if case.get("widen"):
+            # widen the gap between the puller's dequeue and its insert into the running table
+            dr.ok("hook_delay", point="q.pull.got", ms=case["widen"])
+        r = dr.ok("qstress", plans=case["plans"], max_running=case["maxrun"], timeout_secs=1, churn_workers=case.get("churn", 0),
+                  timeout=300)
+        r["alive"] = True
         return r
     finally:
         if dr is not None:
@@ -136,10 +139,31 @@ def analyse(case, r):
                                   "CancelQuery(qid=%d) issued while the query was in the waiting queue had no effect: the "
                                   "query later ran and returned %r (events %s)" % (q, oc[:40], names)))
                     break
+    # admission limit, read directly from the values logged under the table lock
+    dequeued = set(e["kv"].get("qid") for e in ev if e["ev"] == "q.dequeue")
+    for e in ev:
+        # forced starts (RestartQuery, the churn workers) are exempt from the limit by design
+        if e["ev"] == "q.run" and e["kv"].get("qid") in dequeued and e["kv"].get("nrun", 0) > e["kv"].get("max", 1 << 30) \
+                and not case.get("churn"):
+            f.append(("C17:admission:exceeded", "%d queries in the running table with MAX_RUNNING_QUERIES=%d (q.run of qid=%s)" % (
+                e["kv"]["nrun"], e["kv"]["max"], e["kv"].get("qid"))))
+            break
+    # a query whose executor is held back far beyond the query timeout must end by timeout (or cancellation)
+    for i, o in enumerate(r["outs"]):
+        p = case["plans"][i]
+        if p.get("slow_ms", 0) >= 2500 and o["outcome"] == "ok":
+            f.append(("C17:timeout:not-enforced", "query %r was held for %d ms with a 1 s query timeout and still returned a normal answer "
+                      "after %d ms" % (p["text"], p["slow_ms"], o["ms"])))
     if r["running_left"] != 0:
         f.append(("C17:cleanup:running-table", "%d entries left in the running table after quiescence" % r["running_left"]))
     if r["waiting_left"] != 0:
         f.append(("C17:cleanup:waiting-table", "%d entries left in the waiting queue after quiescence" % r["waiting_left"]))
+    if r.get("tables_stuck"):
+        f.append(("C17:life:table-lock-stuck", "reading the running / waiting tables did not return within 8 s after the run: a table lock is "
+                  "held for ever (every later query would block)"))
+    if r.get("churn_stuck"):
+        f.append(("C17:life:table-lock-stuck", "goroutines that only start (forced) and delete their own queries were blocked for 10 s "
+                  "after the storm ended: the running-table lock is never released"))
     if r.get("extra_goroutines"):
         f.append(("C17:cleanup:goroutine", "goroutines of finished queries remain: %s" % r["extra_goroutines"][:3]))
     return f
@@ -215,7 +239,25 @@ def run(chk):
     cases = []
     for i in range(nruns):
         cases.append({"idx": i, "maxrun": [1, 2, 3][i % 3], "procs": rnd.choice([1, 2, 4, 16]), "rotate": i % 2 == 0,
-                      "plans": make_plans(rnd, nq)})
+                      "widen": [0, 3, 0, 8][i % 4], "plans": make_plans(rnd, nq)})
+    # sparse arrivals with a widened dequeue->run gap (a submit can land exactly inside it) and a timeout chain (queries that
+    # wait longer than the timeout before they are admitted and are then held beyond it)
+    for j in range(2 if quick else 8):
+        plans = [{"text": rnd.choice(TEXTS), "start_ms": rnd.randrange(0, 500), "cancel_ms": -1, "slow_ms": rnd.choice([0, 5, 20])}
+                 for _ in range(14)]
+        cases.append({"idx": 1000 + j, "maxrun": 1, "procs": rnd.choice([2, 16]), "rotate": False, "widen": 12, "plans": plans})
+    cases.append({"idx": 2000, "maxrun": 1, "procs": 4, "rotate": False, "widen": 0,
+                  "plans": [{"text": "*", "start_ms": k * 5, "cancel_ms": -1, "slow_ms": 2500} for k in range(3)]})
+    # cancel storms: many queries, most of them cancelled (twice) at random moments while others keep starting
+    for j in range(2 if quick else 10):
+        plans = []
+        for _ in range(90):
+            c1 = rnd.choice([0, 1, 2, 3, 5, 8, 13, 20, 30])
+            plans.append({"text": rnd.choice(TEXTS), "start_ms": rnd.randrange(0, 60), "cancel_ms": c1 if rnd.random() < 0.85 else -1,
+                          "cancel2_ms": c1 + rnd.choice([0, 1, 2]) if rnd.random() < 0.5 else -1,
+                          "slow_ms": rnd.choice([0, 40, 120, 300])})
+        cases.append({"idx": nruns + j, "maxrun": [40, 12][j % 2], "procs": [4, 16][j % 2], "rotate": False, "widen": 0, "churn": 4,
+                      "plans": plans})
 
     def one(c):
         try:
@@ -233,14 +275,13 @@ def run(chk):
         chk.count(("stress", c["idx"]), nontrivial=any(o["outcome"] in ("cancelled", "timeout") for o in r["outs"]))
         for key, what in analyse(c, r):
             chk.violation(key, what, {"case": c, "outs": r["outs"], "events": r["events"][:400]})
-        by_max.setdefault(c["maxrun"], []).append(r)
+        if not c.get("churn"):      # forced starts of the churn workers have no handler: not a behaviour of the trace spec
+            by_max.setdefault(c["maxrun"], []).append(r)
     chk.cov["stress"] = {"runs": len(cases), "queries": len(cases) * nq,
                          "outcomes": {k: sum(1 for r in results if not isinstance(r, Exception) for o in r["outs"] if o["outcome"].split(":")[0] == k)
                                       for k in ("ok", "err", "cancelled", "timeout", "stuck")}}
     for maxrun, runs in sorted(by_max.items()):
         res, trace = validate(chk, runs, maxrun, "maxrun=%d" % maxrun)
-        if res.error and res.rc not in (0, 12, 13):
-            raise vlib.Infra("trace validation could not run: %s\n%s" % (res.error, res.out[-2000:]))
         chk.replayed(len(runs))
         inv = [v for v in res.violated if v not in ("Deadlock",)]
         if inv:
@@ -251,9 +292,11 @@ def run(chk):
                 chk.violation(key, "invariant %s violated on a recorded execution (MAXRUN=%d)" % (v, maxrun),
                               {"trace_tail": trace[-60:], "tlc": res.out[-3000:]})
         elif res.rc != 0:
-            # rejected without a property-level failure: the code no longer takes the steps the spec describes
-            raise vlib.Infra("SPEC-DRIFT: recorded trace (MAXRUN=%d) is not a behaviour of Trace_QueryLifecycle and no "
-                             "invariant failed; validation stopped near event %s\n%s" % (maxrun, res.depth, res.out[-1500:]))
+            # rejected without a property-level failure: the code no longer takes the steps the spec describes.  Not a
+            # verdict; remembered, and reported as exit 2 only if nothing else in this run is a real violation.
+            at = res.depth
+            chk.drift.append("SPEC-DRIFT: recorded trace (MAXRUN=%d) is not a behaviour of Trace_QueryLifecycle; validation stopped at "
+                             "event %s: %s" % (maxrun, at, json.dumps(trace[at - 1:at + 1])[:400] if at else res.out[-600:]))
     if results and not isinstance(results[0], Exception):
         chk.sample({"kind": "stress-run", "plans": cases[0]["plans"][:4], "outs": results[0]["outs"][:4],
                     "events": [(e["ev"], e["kv"]) for e in results[0]["events"][:25]]})
